@@ -136,6 +136,16 @@ class Gauge:
             return self.g_local(e)
         if isinstance(e, ast.Attribute):
             if isinstance(e.value, ast.Name) and e.value.id == self.sn:
+                # a read-only property (`self.offset` = n . p): its value is the getter's return expression
+                getter = self.fi.cls.lookup(e.attr) if self.fi.cls is not None else None
+                if getter is not None and "property" in getattr(getter, "decorators", ()) and getter.self_name is not None \
+                        and getattr(self, "_depth", 0) < 4 and self.q_text is None:
+                    rets = [r for r in walk_local(getter.node) if isinstance(r, ast.Return) and r.value is not None]
+                    if len(rets) == 1:
+                        sub = Gauge(getter, self.q, self.qd)
+                        sub._depth = getattr(self, "_depth", 0) + 1
+                        return sub.g(rets[0].value)
+                    return (None, MIXED)
                 return (0, EVEN)
             return self.g(e.value)
         if isinstance(e, ast.Subscript):
